@@ -176,6 +176,7 @@ type Rep struct {
 	Delay time.Duration
 	Up    bool // the tracker would answer ok to its next announce
 	Peers []*net.TCPAddr
+	Msg   string // kind "fail": the failure text (UDP: the bytes after the header of the error packet); "" = "scripted failure"
 }
 
 func OK(iv, miv *int64) Rep { return Rep{Kind: "ok", IV: iv, MIV: miv, Up: true} }
@@ -198,6 +199,63 @@ type Trk struct {
 	Last  atomic.Int64 // arrival (ms) of the latest announce
 	TorOf int          // torrent this tracker is dedicated to (0 = by info-hash only)
 	Quiet bool         // do not write `ann` lines (the caller records the announces on the client side)
+	// UDP: a BEP 15 connection id is an opaque 64-bit value chosen by the tracker; every connect reply of a scripted tracker
+	// carries the next id of a class sequence (0, 1, all ones, sign bit, the protocol magic, half-zero words, hashed values),
+	// so the id changes between connects. CidOff >= 0 fixes the class of the FIRST connect reply (-1: derived from the names).
+	CidOff    int
+	ConnID    func(n int) uint64                     // overrides the class sequence
+	OnConnect func(n int) (bool, time.Duration)      // script for connect requests: answer?, delay (nil = answer at once)
+}
+
+// CidClasses are the connection-id classes of the scripted UDP trackers (the last one stands for "hashed 64-bit value").
+var CidClasses = []string{"zero", "one", "allones", "signbit", "magic", "lo32", "hi32", "hashed"}
+
+func fnv64(s string) uint64 {
+	h := uint64(14695981039346656037)
+	for i := 0; i < len(s); i++ {
+		h = (h ^ uint64(s[i])) * 1099511628211
+	}
+	return h
+}
+
+// CidAt returns class index and value of the connection id of the n-th (1-based) connect reply.
+func (k *Trk) CidAt(n int) (int, uint64) {
+	off := k.CidOff
+	if off < 0 {
+		off = int(fnv64(fmt.Sprintf("%s/%d", k.S.Name, k.K)) % uint64(len(CidClasses)))
+	}
+	c := (off + n - 1) % len(CidClasses)
+	switch CidClasses[c] {
+	case "zero":
+		return c, 0
+	case "one":
+		return c, 1
+	case "allones":
+		return c, 0xFFFFFFFFFFFFFFFF
+	case "signbit":
+		return c, 0x8000000000000000
+	case "magic":
+		return c, 0x41727101980
+	case "lo32":
+		return c, 0x00000000FFFFFFFF
+	case "hi32":
+		return c, 0xFFFFFFFF00000000
+	}
+	return c, fnv64(fmt.Sprintf("%s/%d/%d", k.S.Name, k.K, n)) | 1<<33
+}
+
+func (k *Trk) connect(n int) (bool, time.Duration) {
+	c, id := k.CidAt(n)
+	cls := CidClasses[c]
+	if k.ConnID != nil {
+		id, cls = k.ConnID(n), "custom"
+	}
+	k.U.C16bSetNextConnID(id)
+	k.S.Line("note", map[string]any{"what": "connect-request", "k": k.K, "n": n, "cid": cls})
+	if k.OnConnect != nil {
+		return k.OnConnect(n)
+	}
+	return true, 0
 }
 
 type dgram struct {
@@ -225,10 +283,13 @@ func (k *Trk) Close() {
 
 // NewTrk starts a scripted tracker; k is its 1-based index in the scenario.
 func NewTrk(s *Sc, k int, udp bool, plan func(n int, r vh.AnnReq) Rep) (*Trk, error) {
-	t := &Trk{S: s, K: k, UDP: udp, Plan: plan, seen: map[string]*dgram{}, RtxIV: 1800}
+	t := &Trk{S: s, K: k, UDP: udp, Plan: plan, seen: map[string]*dgram{}, RtxIV: 1800, CidOff: -1}
 	var err error
 	if udp {
 		t.U, err = vh.StartUDPTracker(nil, fmt.Sprintf("%s.k%d", s.Name, k), t.script)
+		if err == nil {
+			t.U.Connect = t.connect
+		}
 	} else {
 		t.H, err = vh.StartHTTPTracker(nil, fmt.Sprintf("%s.k%d", s.Name, k), t.script)
 	}
@@ -317,6 +378,9 @@ func (k *Trk) script(r vh.AnnReq) vh.AnnReply {
 		line["ivabs"], line["mivabs"] = rep.IV == nil, rep.MIV == nil || k.UDP
 	case "fail":
 		out = vh.AnnReply{Failure: "scripted failure", Delay: rep.Delay}
+		if rep.Msg != "" {
+			out.Failure = rep.Msg
+		}
 	case "garbage":
 		if k.UDP {
 			out = vh.AnnReply{RawBody: []byte{0, 0, 0, 1, 0, 0, 0, 0, 9, 9}, Delay: rep.Delay} // announce action, truncated
